@@ -41,7 +41,8 @@ def evaluate(fname, fb, re, im):
 def exp_reference(xb, yb, f):
     """exp(x+iy) with huge |x| decided analytically (mpmath's exp does not terminate for |x| >~ 1e5)"""
     x = flt.bits2frac(xb, f)
-    T = (f.emax + f.p + 64) * 0.7
+    # beyond T the factor e^x over/underflows whatever the (non-zero, representable) size of cos y / sin y
+    T = (f.emax + 2 * (-f.emin + f.p) + 64) * 0.6932
     if abs(x) <= T:
         return None
     y = mpref.to_mpf(yb, f)
@@ -156,7 +157,9 @@ def judge(fname, fb, xb, yb, gr, gi):
     nan = flt.is_nan_bits(gr, f) or flt.is_nan_bits(gi, f)
     gotinf = flt.is_inf_bits(gr, f) or flt.is_inf_bits(gi, f)
     kind = "spurious-nan" if nan else ("spurious-inf" if gotinf and flt.is_finite_bits(rb, f) and flt.is_finite_bits(ib, f) else "ulp-bound")
-    zone = "zero-component" if (xz or yz) else region(fname, xb, yb, f)
+    zone = region(fname, xb, yb, f)
+    if xz or yz:
+        zone = "zero-component" if zone in ("generic", "huge-component") else "zero-component+" + zone
     return "ok", best, [("%s/%s/%s" % (fname, kind, zone), "%s = (%r, %r), correctly rounded (%r, %r): %s lattice steps (bound %d)" % (zs, flt.bits_scalar(gr, f), flt.bits_scalar(gi, f), flt.bits_scalar(rb, f), flt.bits_scalar(ib, f), best if best < 10**9 else "NaN/inf", BOUND))]
 
 
